@@ -23,7 +23,7 @@ Definition vm_cls (r : res fs) : nat :=
   match r with
   | Ok _ => 0 | Err XOutside => 1 | Err XDigest => 2 | Err XAbsLink => 3 | Err XWriteThrough => 3 | Err _ => 4
   end%nat.
-Definition vm_hyp (t : tree) : bool := is_dir t && wf_treeb t && modes_okb t && benign_tree t.
+Definition vm_hyp (pre : path) (t : tree) : bool := is_dir t && wf_treeb t && modes_okb t && benign_tree pre t.
 (* the listing printed by the runner: every listed path has the listed node, nothing else is bound *)
 Definition vm_listing (r : res fs) (l : list (path * node)) : bool :=
   match r with
@@ -111,9 +111,9 @@ def _vm_goal(case, out):
                         "d": lambda: "NDir %d" % int(mode, 8),
                         "l": lambda: "NLink %s" % _vm_str(payload)}[typ]()
                 items.append("(%s, %s)" % (_vm_path(pth), node))
-            return "(vm_hyp %s, vm_listing (%s)\n   [%s]) = (%s, true)" % (t, call, ";\n    ".join(items), hb)
+            return "(vm_hyp %s %s, vm_listing (%s)\n   [%s]) = (%s, true)" % (_vm_path(toks[3]), t, call, ";\n    ".join(items), hb)
         cls = {"ERR outside": 1, "ERR digest": 2, "ERR reject": 4}[rest]
-        return "(vm_hyp %s, vm_cls (%s)) = (%s, %d%%nat)" % (t, call, hb, cls)
+        return "(vm_hyp %s %s, vm_cls (%s)) = (%s, %d%%nat)" % (_vm_path(toks[3]), t, call, hb, cls)
     if k == "E":
         n = int(toks[4])
         ents = []
@@ -201,7 +201,7 @@ def _c12_vm_sample(d, tier, coq, build):
 
 CONFIG = {
     "properties_file": "Properties/C12.v",
-    "proof_files": ["Base/Prelude.v", "Proofs/TarRoundTrip.v", "Proofs/TarWalkOrder.v", "Proofs/TarListingOrder.v", "Proofs/TarRootMode.v"],
+    "proof_files": ["Base/Prelude.v", "Proofs/TarRoundTrip.v", "Proofs/TarWalkOrder.v", "Proofs/TarListingOrder.v", "Proofs/TarModeSweep.v", "Proofs/TarRootMode.v"],
     "model_files": ["Generated/GC12.v", "Model/TarRoundTrip.v", "Model/FileAnnotations.v"],
     "extract": "XC12.v",
     "ml_main": "c12_main.ml",
@@ -211,17 +211,18 @@ CONFIG = {
     "timeout_quick": 600,
     "timeout_thorough": 3000,
     "assumptions": [
-        "archive/tar and compress/gzip byte encodings are Section variables enc/dec/gz/gunz with the hypotheses dec (enc es) = Some es and gunz (gz s) = Some s; the digest is a Section variable H with a decidable equality (no collision-freeness is needed by the theorems; the reproducibility theorem concludes equality of entry lists, hence of bytes and digests)",
-        "paths are lists of components; filepath.Join/Clean/Rel/ToSlash on the clean relative names that tarDirectory produces = list append / strip_prefix / lexnorm (hand-modelled; compared with the implementation on every generated tree, including '.', '..', '//' and trailing-slash link targets)",
-        "filepath.Walk = pre-order with byte-wise sorted children (sort_tree); os.MkdirAll/OpenFile/Symlink/Chmod/umask = mkdir_all/fs_set/create_mode/chmod_mode on a path->node map (kernel semantics modelled, root user, Linux: open honours 07777, mkdir 01777, chmod via os.FileMode(header.Mode) only 0777)",
-        "hypotheses of the round-trip theorems: distinct names per directory, modes within 07777 (files) / 01777 (directories: mkdir(2) drops setuid/setgid), symlink targets relative, lexically inside the directory and passing neither through another symlink of the tree nor through a regular file (benign_tree: resolveRelToBase rejects the former by design and the latter with ENOTDIR, both depending on extraction order; the model mirrors the order dependence and is compared on such trees, the oracle judges only benign ones); absolute targets and out-and-back-in targets are outside the model (XAbsLink = unjudged); the umask is within 0777 for the full-strength theorems (the kernel keeps no other bits; by a vm_compute sweep over 1024 directory modes x 512 umasks); extraction escapes belong to C11",
-        "the mode of a top-level plain file is not carried by a blob descriptor at all (no tar): for plain files the theorems and the oracle speak of bytes only",
-        "each added name is restored into its own directory: the round-trip theorem is per item and the generator keeps the names of one scenario relative, clean and not nested in each other (names with '..', absolute names and overlapping names are C11's subject)",
-        "which of several same-content layers oras.Copy pushes is scheduling: the theorem quantifies over every pushed subset/order; in the correspondence the recorded sequence of successful named pushes is the model's input",
-        "devices, fifos, xattrs, times of restored files, setuid/setgid directories and sizes above ~2.5 MiB are not exercised; the remote intermediate store is registry/remote.Repository against an in-memory registry of the harness over loopback HTTP (monolithic uploads only); hard links are exercised (Add treats them as regular files)",
+        "archive/tar and compress/gzip byte encodings are Section variables enc/dec/gz/gunz with the hypotheses dec (enc es) = Some es and gunz (gz s) = Some s; the digest is a Section variable H with a decidable equality (no collision-freeness is needed: the reproducibility theorem concludes equality of entry lists, hence of bytes and digests)",
+        "paths are lists of components; filepath.Join/Clean/Rel/ToSlash on the clean relative names that tarDirectory produces = list append / strip_prefix / lexnorm_aux on a stack that starts with the added name (a target may leave the directory and come back through its own name; climbing above the working directory counts as outside, the absolute path of the working directory is not in the model); hand-modelled, compared with the implementation on every generated tree",
+        "filepath.Walk = pre-order with byte-wise sorted children (sort_tree); os.MkdirAll/Mkdir/OpenFile/Symlink/Remove/Chmod/umask = mkdir_all/fs_set/has_children/create_mode/chmod_mode/narrow_mode on a path->node map. The kernel's PERMISSION CHECKS are not in the model (a node map has no owner): that the restore also works for an unprivileged user is observed by re-running a part of the harness as uid 65534 (trees with read-only directories included) and comparing with the same model; umasks with owner bits and setuid/setgid files are exercised as root only (an unprivileged writer's write(2) clears setuid/setgid of a non-empty file: not modelled, not generated for uid 65534)",
+        "hypotheses of the round-trip theorems: distinct names per directory (wf_treeb; it does not forbid component names such as '..' or 'a/b' that no file system has -- the theorems are then about trees wider than real ones), modes within 07777 for files AND directories, umask within 0777 when PreservePermissions is off (kernel), symlink targets relative, inside the directory and passing neither through another symlink of the tree nor through a regular file (benign_tree pre T). What benign_tree excludes: (i) links leaving the directory are refused by extractTarDirectory by design (outside the property: generated, compared with the model, not judged); (ii) links staying inside but passing through another link / a regular file / themselves are refused depending on the extraction order: judged, known findings link-through-link-rejected / link-through-file-rejected with the refuted witness C12_link_through_link_refuted; whenever a restore succeeds the oracle compares the trees whatever the links look like",
+        "a plain file travels as a bare blob: its bytes and name come back, its mode does not (0666 minus umask): theorem C12_file_roundtrip says exactly that, the oracle reports every such case as known finding plain-file-mode-not-carried; with SkipUnpack a directory is by the option's definition restored as its gzip blob under the name (C12_skipunpack_stores_blob, oracle: bytes = descriptor digest), the tree clause does not apply",
+        "each added name is restored into its own fresh directory: the round-trip theorem is per item; names of one scenario are relative and not nested in each other (also unclean: './x', 'x/', 'x//y'); pre-populated destination or intermediate stores, fifos/devices (Add archives them, extraction skips them) and directory-typed same-bytes duplicates (cannot arise from Add: the name is the tar prefix) are not exercised; setgid destination working directories are refused by the harness (inherited bits)",
+        "which of several same-content layers oras.Copy pushes is scheduling: the theorem quantifies over every pushed subset/order covering every content; in the correspondence the recorded sequence of successful named pushes is the model's input; the guard of restoreDuplicatesOfSkipped (manifest media types, 4 MiB) is not in the model",
+        "definitional statements (they unfold the model's definition; the clause itself is carried by oracle + correspondence): C12_descriptor (oracle: Fetch after Add, digests recomputed), C12_file_roundtrip, C12_forcecas_no_restore, C12_annotations; Copy through memory / OCI layout / remote and name -> path (resolveWritePath) have no model: oracle/correspondence only. 'verified on unpack' means Push fails (C12_wrong_checksum_rejected, oracle checksum-unverified): the tar digest is compared AFTER extraction (utils.go), so the files of a tampered archive are on disk when Push returns the error -- stated here, not a theorem; error classes compared with the model are coarse (outside / digest / any other rejection)",
+        "sizes above ~2.5 MiB, xattrs, times of restored files and NAME_MAX < 220 file systems are not exercised; the remote intermediate store is registry/remote.Repository against an in-memory registry of the harness over loopback HTTP (monolithic uploads only); hard links are exercised (Add treats them as regular files); the second copy of every reproducibility pair is chown-ed to other uids/gids",
     ],
     "level_text": "Coq theorems for all directory trees (any nesting, names, contents, child order, any umask within 0777, both PreservePermissions settings): extractTarDirectory applied to the entry list written by tarDirectory never fails and yields exactly the source tree as a path->node map -- the directory itself included (same paths, bytes, link targets, modes minus umask or exact, nothing else), proved by tree induction with a frame invariant plus a finite sweep for the base directory's mode; invariance under filepath.Walk's sorting and under the listing order of every directory; descriptor digest/size/recorded tar digest and their verification on unpack; plain files; reproducible tars depend only on the tree without timestamps; after any subset/order of layer pushes covering every content, the manifest push materialises every name (restoreDuplicates, also with IgnoreNoName), not under ForceCAS; the three pre-fix behaviours found by this check are kept as refuted theorems about *_prefix models. Tied to content/file by a differential run Add -> PackManifest -> Copy -> memory / OCI layout / remote repository -> Copy -> second file store on generated trees (decoded tar headers, restored listings, descriptor equality, pushed/materialised names, tampered descriptors, re-ordered foreign archives), an exhaustive small scope, an independent oracle on the generator's own tree and an in-Coq vm_compute re-evaluation of sampled cases",
-    "level_note": "full at entry-list level; tar/gzip bytes, the digest, filepath.Walk and the kernel file system (root user, Linux) are modelled, not verified; three defects found by the check are fixed in the repository (IgnoreNoName dropped same-content files; PreservePermissions lost setuid/setgid/sticky; the directory's own mode was lost without PreservePermissions), their pre-fix models are kept as refuted theorems; no known findings remain",
+    "level_note": "full at entry-list level for benign trees; tar/gzip bytes, the digest, filepath.Walk and the kernel file system are modelled, not verified; kernel permission checks are outside the model and covered by an unprivileged re-run of the harness; six defects found by the check are fixed in the repository (IgnoreNoName dropped same-content files; PreservePermissions lost setuid/setgid/sticky; the directory's own mode was lost; a symlinked root was archived as a link; read-only directories could not be restored by an unprivileged user and setuid/setgid directories lost their bits -- both by applying directory modes after the last entry); three known findings remain and are reported on every run: link-through-link-rejected, link-through-file-rejected (order-dependent refusal of inside links, refuted witness in Coq), plain-file-mode-not-carried (a blob has no mode); oracle-only clauses: transport through other stores, descriptor of the stored bytes",
     "technique": "machine-checked proof in Coq (tree induction, frame invariant over a path->node map, permutation invariance, induction over push sequences) + translator-regenerated annotation keys + model/implementation correspondence + independent oracle",
     "explanation": "theorems over all trees/umasks/options about the model of tarDirectory/descriptorFromDir/pushDir/extractTarDirectory/restoreDuplicates; the extracted model and the real file store are run on the same generated scenarios (every intermediate store x SkipUnpack x ForceCAS x IgnoreNoName combination in every run) and their tar entry lists, restored listings, descriptor-equality verdicts, materialised names, unpack verdicts and extractions of re-ordered archives are diffed; the oracle compares source and restored trees directly (via Copy and via a direct Push) and separates restore-failed-* from restored-differently signatures; a sample of the cases is re-evaluated inside Coq with vm_compute (post_model hook)",
 }
